@@ -208,6 +208,10 @@ def c18_run(base_seed, index, tier, nt, *, forced=None, cfg_override=None,
                        "set_data": 6, "remove_children": 1, "meta": 0, "filter": 0, "del": 0,
                        "clear": 0}
     hcfg["probe_keys"] = []
+    hcfg["bulk"] = None  # small shared trees: the schedule space is what is explored here
+    hcfg["shape"] = None
+    hcfg["max_nodes"] = 15
+    hcfg["labels"] = list("abcdefgh")
     world = new_world(hcfg, nt)
     slot = world.slots[0]
     tree = slot.real
@@ -226,7 +230,7 @@ def c18_run(base_seed, index, tier, nt, *, forced=None, cfg_override=None,
 
     sched = Scheduler(R.stream(seed, "sched"), line_rng=R.stream(seed, "line"),
                       p_line=cfg["p_line"], nutree_dir=os.path.dirname(nt.__file__),
-                      max_decisions=20000 if tier == "quick" else 60000,
+                      max_decisions=100000,
                       stall_prob=cfg["stall_prob"])
     sched.forced = list(forced) if forced is not None else None
     locks = swap_locks(tree, sched)
